@@ -18,6 +18,7 @@ def excCls? : Sexp → Option ExcCls
   | .atom "ValueError" => some .valueError | .atom "LookupError" => some .lookupError
   | .atom "KeyError" => some .keyError | .atom "AssertionError" => some .assertionError
   | .atom "KeyboardInterrupt" => some .keyboardInterrupt | .atom "SystemExit" => some .systemExit
+  | .atom "NotImplementedError" => some .notImplementedError
   | .atom "OracleMiss" => some .oracleMiss | .atom "Any" => some .anyCls
   | _ => none
 def ofExcCls : ExcCls → Sexp
@@ -26,6 +27,7 @@ def ofExcCls : ExcCls → Sexp
   | .valueError => .atom "ValueError" | .lookupError => .atom "LookupError"
   | .keyError => .atom "KeyError" | .assertionError => .atom "AssertionError"
   | .keyboardInterrupt => .atom "KeyboardInterrupt" | .systemExit => .atom "SystemExit"
+  | .notImplementedError => .atom "NotImplementedError"
   | .oracleMiss => .atom "OracleMiss" | .anyCls => .atom "Any"
 
 def exc? (c a : Sexp) : Option Exc := do some ⟨← excCls? c, ← int? a⟩
@@ -85,6 +87,17 @@ def opaque? : Sexp → Option Leaf
       some (.opaque (← nat? k) (ps.map (·.1)) (ps.map (·.2)))
   | _ => none
 
+def msgKind? : Sexp → Option MsgKind
+  | .atom "one" => some .one | .atom "zero" => some .zero | .atom "empty" => some .empty | .atom "two" => some .two
+  | _ => none
+
+/-- `(pred id msgkind (v verdict)…)` -/
+def predicate? : Sexp → Option Leaf
+  | .list (.atom "pred" :: k :: mk :: rows) => do
+      let ps ← rows.mapM (pair? v? verdict?)
+      some (.predicate (← nat? k) (← msgKind? mk) (ps.map (·.1)) (ps.map (·.2)))
+  | _ => none
+
 partial def m? : Sexp → Option M
   | .list [.atom "eq", e] => (v? e).map (.leaf ∘ .equals)
   | .list [.atom "ne", e] => (v? e).map (.leaf ∘ .notEquals)
@@ -111,6 +124,7 @@ partial def m? : Sexp → Option M
   | .list (.atom "raisesFn" :: cs) => (cs.mapM excCls?).map fun cs => .raises (.leaf (.excType cs))
   | .list [.atom "raisesInst", c, a] => (exc? c a).map fun e => .raises (.leaf (.excInst e))
   | .list (.atom "opq" :: rest) => (opaque? (.list (.atom "opq" :: rest))).map .leaf
+  | .list (.atom "pred" :: rest) => (predicate? (.list (.atom "pred" :: rest))).map .leaf
   | .list [.atom "not", m] => (m? m).map .not
   | .list (.atom "all" :: fo :: ms) => do some (.all (← bool? fo) (← ms.mapM m?))
   | .list (.atom "any" :: ms) => (ms.mapM m?).map .any
